@@ -176,8 +176,9 @@ class Interp:
     def __init__(self, hier: Hierarchy, dyn: Optional[str] = None,
                  inline: Callable[[str], bool] = lambda m: False,
                  self_obj: Optional[Obj] = None, max_steps=20000, call_hook=None, globals=None,
-                 strict_self_calls: bool = False):
+                 strict_self_calls: bool = False, inline_module_functions: bool = False):
         self.hier = hier
+        self.inline_module_functions = inline_module_functions
         # a self-call that is neither hooked nor inlined is a silent no-op unless strict
         self.strict_self_calls = strict_self_calls
         self.dyn = dyn
@@ -373,7 +374,7 @@ class Interp:
                 self.exec_block(st.finalbody, env, f)
                 raise
             self.exec_block(st.finalbody, env, f)
-        elif isinstance(st, (ast.FunctionDef,)) and not st.decorator_list and not st.args.vararg and not st.args.kwarg:
+        elif isinstance(st, (ast.FunctionDef,)) and not st.decorator_list and not st.args.kwarg:
             env[st.name] = DefClosure(st, env, f)
         elif isinstance(st, ast.Delete):
             for t in st.targets:
@@ -930,6 +931,11 @@ class Interp:
                 return t
             if n[:1].isupper() and kwargs and not args:
                 return Record(n, kwargs)
+            if self.inline_module_functions and n not in env:
+                # a helper function of the same module: interpreted like a method of the class would be
+                g = self.hier.repo.funcs.get("%s.%s" % (f.module.name, n))
+                if g is not None and g.cls is None:
+                    return self.invoke(g, args, kwargs, None)
             return TOP
         if isinstance(fn, ast.Attribute):
             m = fn.attr
@@ -1002,6 +1008,9 @@ class Interp:
     def call_def_closure(self, c, args, kwargs):
         sub = dict(c.env)                      # late binding: the enclosing variables as they are now
         names = [a.arg for a in c.node.args.args]
+        if c.node.args.vararg is not None:
+            sub[c.node.args.vararg.arg] = tuple(args[len(names):])
+            args = list(args[:len(names)])
         if len(args) > len(names):
             raise Unsupported("call of nested function %s with too many arguments" % c.node.name)
         for nme, v in zip(names, args):
